@@ -9,7 +9,7 @@
 //	handler  the exported op.AuthResponse / op.AuthRequestError /
 //	         op.TryErrorRedirect on a crafted stored auth request (the
 //	         provider makes code and tokens, the dispatch is the library's);
-//	http     authorize → login → callback and four error paths through both
+//	http     authorize → login → callback and five error paths through both
 //	         routers (full product over router × URI × mode × type × kind,
 //	         one deviation among the strings).
 //
@@ -19,6 +19,7 @@ package c11
 
 import (
 	"context"
+	"errors"
 	"fmt"
 	"net/http"
 	"net/http/httptest"
@@ -63,7 +64,10 @@ var specials = []string{
 	"{{.}}",
 }
 
-// strings(level): 0 = benign ∪ "" ∪ Σ ∪ aσb ∪ specials ; 1 = + Σ² ; 2 = + Σ³
+// the symbols that matter to URL and HTML encoding, for the third power
+var sigmaCore = []string{"a", " ", "+", "/", "=", "&", "%", "#", "\"", "'", "<", ">", "é", "\x00"}
+
+// strings(level): 0 = benign ∪ "" ∪ Σ ∪ aσb ∪ specials ; 1 = + Σ² ; 2 = + Σcore³
 func hostileStrings(level int) []string {
 	out := []string{benign, ""}
 	out = append(out, sigma...)
@@ -79,9 +83,9 @@ func hostileStrings(level int) []string {
 		}
 	}
 	if level >= 2 {
-		for _, x := range sigma {
-			for _, y := range sigma {
-				for _, z := range sigma {
+		for _, x := range sigmaCore {
+			for _, y := range sigmaCore {
+				for _, z := range sigmaCore {
 					out = append(out, x+y+z)
 				}
 			}
@@ -143,7 +147,17 @@ var (
 	dMode  = engine.D("mode", "unset", "query", "fragment", "form_post")
 	dType  = engine.D("type", "code", "id_token", "id_token token")
 	dState = engine.D("session_state", "set", "none")
+	// what the failing storage call returns: an *oidc.Error with a description, or a plain error
+	// (the library turns its text into the description of a server_error)
+	dCause = engine.D("cause", "oidc-error", "plain-error")
 )
+
+func causeOf(kind, s string) (err error, code string) {
+	if kind == "plain-error" {
+		return errors.New(tag("ed", s)), "server_error"
+	}
+	return oidc.ErrAccessDenied().WithDescription("%s", tag("ed", s)), "access_denied"
+}
 
 func modeOf(m string) oidc.ResponseMode {
 	if m == "unset" {
@@ -320,6 +334,7 @@ func observe(resp *rig.Resp) *got {
 type handlerCase struct {
 	s, uri, mode, rtype, kind string // kind: success | AuthRequestError | TryErrorRedirect
 	ss                        bool
+	cause                     string
 }
 
 func (c handlerCase) authReq() *refstore.AuthReq {
@@ -336,7 +351,7 @@ func (c handlerCase) run(r *rig.Rig) *got {
 	a := c.authReq()
 	st.AuthReqs[a.ID] = a
 	r.Core.Reset(st)
-	cause := oidc.ErrAccessDenied().WithDescription("%s", tag("ed", c.s))
+	cause, _ := causeOf(c.cause, c.s)
 	if c.kind == "TryErrorRedirect" {
 		g := &got{}
 		if p := engine.Safe(func() {
@@ -362,7 +377,7 @@ func (c handlerCase) run(r *rig.Rig) *got {
 	return observe(rig.Do(h, r.Core, rig.Req("GET", "/authorize/callback", url.Values{"id": {a.ID}}, nil)))
 }
 
-func handlerWant(c handlerCase, r *rig.Rig) *want {
+func handlerWant(c handlerCase, r, refRig *rig.Rig) *want {
 	w := &want{entry: "handler:" + c.kind, uri: c.uri, mode: c.mode, rtype: c.rtype, isErr: c.kind != "success"}
 	add := func(k, v string) {
 		if v != "" {
@@ -375,7 +390,8 @@ func handlerWant(c handlerCase, r *rig.Rig) *want {
 	}
 	switch {
 	case w.isErr:
-		add("error", "access_denied")
+		_, code := causeOf(c.cause, c.s)
+		add("error", code)
 		add("error_description", tag("ed", c.s))
 		add("state", c.s)
 		add("session_state", ss)
@@ -395,14 +411,14 @@ func handlerWant(c handlerCase, r *rig.Rig) *want {
 		add("state", c.s)
 	}
 	w.check = opaqueCheck(r, 0, storedCode(r))
-	w.refKey = fmt.Sprintf("handler|%s|%s|%v|%v", c.kind, c.rtype, c.ss, c.s == "")
+	w.refKey = fmt.Sprintf("handler|%s|%s|%v|%v|%s", c.kind, c.rtype, c.ss, c.s == "", c.cause)
 	w.ref = func() []byte {
 		b := c
 		b.uri = plainURI
 		if c.s != "" {
 			b.s = benign
 		}
-		return b.run(r).body
+		return b.run(refRig).body // separate store: the case's own state stays intact for the token checks
 	}
 	return w
 }
@@ -412,8 +428,9 @@ func handlerWant(c handlerCase, r *rig.Rig) *want {
 
 type httpCase struct {
 	router                    int
-	s, uri, mode, rtype, kind string // kind: success | notdone | cbfault | authzerr | createfault
+	s, uri, mode, rtype, kind string // kind: success | notdone | cbfault | authzerr | createfault | cbfault-client
 	ss                        bool
+	cause                     string
 }
 
 var faultAtCallback = map[string]bool{"SaveAuthCode": true, "CreateAccessToken": true, "CreateAccessAndRefreshTokens": true,
@@ -431,7 +448,7 @@ func (c httpCase) run(r *rig.Rig) *got {
 	if c.ss {
 		q.Set("login_hint", "ss:"+tag("ss", c.s)) // refstore turns this into the request's session state
 	}
-	cause := oidc.ErrAccessDenied().WithDescription("%s", tag("ed", c.s))
+	cause, _ := causeOf(c.cause, c.s)
 	switch c.kind {
 	case "authzerr":
 		q.Set("prompt", "none login") // contradictory prompt: refused after the redirect URI has been validated
@@ -459,13 +476,14 @@ func (c httpCase) run(r *rig.Rig) *got {
 		if err := r.Core.Login(id, "u1"); err != nil {
 			return &got{kind: "refused", refused: err.Error()}
 		}
-	case "cbfault":
+	case "cbfault", "cbfault-client":
 		if err := r.Core.Login(id, "u1"); err != nil {
 			return &got{kind: "refused", refused: err.Error()}
 		}
 		fired := false
+		early := c.kind == "cbfault-client" // the client lookup of op.AuthResponse fails
 		r.Core.Fault = func(_ int, m string) error {
-			if !fired && faultAtCallback[m] {
+			if !fired && (faultAtCallback[m] && !early || m == "GetClientByClientID" && early) {
 				fired = true
 				return cause
 			}
@@ -477,7 +495,7 @@ func (c httpCase) run(r *rig.Rig) *got {
 	return observe(resp)
 }
 
-func httpWant(c httpCase, r *rig.Rig) *want {
+func httpWant(c httpCase, r, refRig *rig.Rig) *want {
 	w := &want{entry: "http:" + rig.Routers[c.router] + ":" + c.kind, uri: c.uri, mode: c.mode, rtype: c.rtype, isErr: c.kind != "success"}
 	add := func(k, v string) {
 		if v != "" {
@@ -508,15 +526,20 @@ func httpWant(c httpCase, r *rig.Rig) *want {
 		w.opaque = []string{"error"}
 		add("state", c.s)
 		add("session_state", ss)
-	case "cbfault":
-		add("error", "access_denied")
+	case "cbfault", "cbfault-client":
+		_, code := causeOf(c.cause, c.s)
+		add("error", code)
 		add("error_description", tag("ed", c.s))
 		add("state", c.s)
 		add("session_state", ss)
 	case "createfault":
 		// the request was never stored: no session state exists yet
-		add("error", "access_denied")
-		add("error_description", tag("ed", c.s))
+		_, code := causeOf(c.cause, c.s)
+		add("error", code)
+		if c.cause == "oidc-error" {
+			// for a plain error the library substitutes a fixed text of its own
+			add("error_description", tag("ed", c.s))
+		}
 		add("state", c.s)
 	case "authzerr":
 		w.opaque = []string{"error"}
@@ -526,14 +549,14 @@ func httpWant(c httpCase, r *rig.Rig) *want {
 		w.soft = c.router == 1
 	}
 	w.check = opaqueCheck(r, c.router, storedCode(r))
-	w.refKey = fmt.Sprintf("http|%d|%s|%s|%v|%v", c.router, c.kind, c.rtype, c.ss, c.s == "")
+	w.refKey = fmt.Sprintf("http|%d|%s|%s|%v|%v|%s", c.router, c.kind, c.rtype, c.ss, c.s == "", c.cause)
 	w.ref = func() []byte {
 		b := c
 		b.uri = plainURI
 		if c.s != "" {
 			b.s = benign
 		}
-		return b.run(r).body
+		return b.run(refRig).body // separate store: the case's own state stays intact for the token checks
 	}
 	return w
 }
@@ -542,7 +565,7 @@ func httpWant(c httpCase, r *rig.Rig) *want {
 
 func TestCheck(t *testing.T) {
 	c := engine.Start(t, "C11")
-	c.SetRule("E1: (direct) full product strings × redirect-URI shapes × response_mode × response_type × {success,error} × session_state on op.AuthResponseURL / op.AuthResponseFormPost; (handler) the same product on op.AuthResponse / op.AuthRequestError / op.TryErrorRedirect with a crafted stored request; (http) full product router × URI × mode × type × {success, 4 error paths} crossed with ≤1 deviation in {string, session_state}; every output decoded like the receiver (query / raw fragment / HTML tokeniser) and compared byte for byte; distinct = (oracle rule, observed outcome class)")
+	c.SetRule("E1: (direct) full product strings × redirect-URI shapes × response_mode × response_type × {success,error} × session_state on op.AuthResponseURL / op.AuthResponseFormPost; (handler) the same product on op.AuthResponse / op.AuthRequestError / op.TryErrorRedirect with a crafted stored request; (http) full product router × URI × mode × type × {success, 4 error paths} crossed with ≤1 deviation in {string, session_state, storage error kind}; every output decoded like the receiver (query / raw fragment / HTML tokeniser) and compared byte for byte; distinct = (oracle rule, observed outcome class)")
 	c.Assume("net/url query parsing and golang.org/x/net/html tokenisation behave like a user agent's",
 		"redirect URI that already has a fragment, fragment mode: the old fragment may be replaced (DESIGN §1.6)",
 		"scope / token_type / expires_in: integrity when present, absence is no violation (DESIGN §1.6)",
@@ -575,17 +598,18 @@ func TestCheck(t *testing.T) {
 
 	lap("direct")
 	// --- part 2 -------------------------------------------------------------
-	sp2 := engine.Space{strDim("str", lvlHandler), dURI, dMode, dType, engine.D("kind", "success", "AuthRequestError", "TryErrorRedirect"), dState}
+	sp2 := engine.Space{strDim("str", lvlHandler), dURI, dMode, dType, engine.D("kind", "success", "AuthRequestError", "TryErrorRedirect"), dState, dCause}
 	c.RunE1(engine.E1{
 		Part: "handler", Space: sp2, K: len(sp2),
-		Groups: [][]string{{"str", "uri", "mode", "type", "kind", "session_state"}},
+		Groups: [][]string{{"str", "uri", "mode", "type", "kind", "session_state", "cause"}},
+		Skip:   func(v engine.Vec) bool { return sp2.Get(v, "kind") == "success" && sp2.Get(v, "cause") != "oidc-error" },
 		NewWorker: func(int) func(engine.Vec) engine.Result {
-			r := newRig()
+			r, refRig := newRig(), newRig()
 			return func(v engine.Vec) engine.Result {
 				g := func(n string) string { return sp2.Get(v, n) }
-				hc := handlerCase{s: unlabel(g("str")), uri: g("uri"), mode: g("mode"), rtype: g("type"), kind: g("kind"), ss: g("session_state") == "set"}
+				hc := handlerCase{s: unlabel(g("str")), uri: g("uri"), mode: g("mode"), rtype: g("type"), kind: g("kind"), ss: g("session_state") == "set", cause: g("cause")}
 				obs := hc.run(r)
-				return judge(handlerWant(hc, r), obs)
+				return judge(handlerWant(hc, r, refRig), obs)
 			}
 		},
 	})
@@ -593,21 +617,25 @@ func TestCheck(t *testing.T) {
 	lap("handler")
 	// --- part 3 -------------------------------------------------------------
 	sp3 := engine.Space{engine.D("router", rig.Routers...), dURI, dMode, dType,
-		engine.D("kind", "success", "notdone", "cbfault", "authzerr", "createfault"), strDim("str", lvlHTTP), dState}
+		engine.D("kind", "success", "notdone", "cbfault", "authzerr", "createfault", "cbfault-client"), strDim("str", lvlHTTP), dState, dCause}
 	c.RunE1(engine.E1{
 		Part: "http", Space: sp3, K: 1,
 		Groups: [][]string{{"router", "uri", "mode", "type", "kind"}},
+		Skip: func(v engine.Vec) bool {
+			k := sp3.Get(v, "kind")
+			return k != "cbfault" && k != "createfault" && k != "cbfault-client" && sp3.Get(v, "cause") != "oidc-error"
+		},
 		NewWorker: func(int) func(engine.Vec) engine.Result {
-			r := newRig()
+			r, refRig := newRig(), newRig()
 			return func(v engine.Vec) engine.Result {
 				g := func(n string) string { return sp3.Get(v, n) }
 				router := 0
 				if g("router") == rig.Routers[1] {
 					router = 1
 				}
-				hc := httpCase{router: router, s: unlabel(g("str")), uri: g("uri"), mode: g("mode"), rtype: g("type"), kind: g("kind"), ss: g("session_state") == "set"}
+				hc := httpCase{router: router, s: unlabel(g("str")), uri: g("uri"), mode: g("mode"), rtype: g("type"), kind: g("kind"), ss: g("session_state") == "set", cause: g("cause")}
 				obs := hc.run(r)
-				return judge(httpWant(hc, r), obs)
+				return judge(httpWant(hc, r, refRig), obs)
 			}
 		},
 	})
